@@ -11,6 +11,7 @@ harness/src/bin/c17/postx.rs.  Readers: read-fonts `Post::read` / `Post::glyph_n
 -/
 import FontVerif.Lemmas.SubsetPost
 import FontVerif.Lemmas.Layout
+import FontVerif.Props.C17
 set_option linter.unusedVariables false
 namespace FontVerif.C17Post
 open FontVerif FontVerif.Subset FontVerif.SubsetMeta FontVerif.SubsetPost
@@ -75,21 +76,21 @@ theorem out_reader (inp : PostIn) (out : Bytes) (hr : PostReq inp) (h : subsetPo
   · intro i hi; rw [hout]; exact l3 i hi
   · unfold stringData; rw [hng, hout]; exact l4
 
-/-- **post_v2_glyph_names_preserved.**  GLYPH_NAMES, version 2.0, a successful `Post::subset`, and fewer than
-65536 − 258 + 1 distinct custom names among the kept glyphs (`hcap`; the counter wraps beyond — the source table
-cannot denote more, each name needing its own u16 index ≥ 258).  Then the emitted table is readable, is
-version 2.0, and for EVERY entry (new, old) of the plan read-fonts' `glyph_name(new)` on the subset is the
+/-- **post_v2_glyph_names_preserved.**  GLYPH_NAMES, version 2.0, a successful `Post::subset`.  Then the emitted
+table is readable, is version 2.0 (`post_v2_num_glyphs`), and for EVERY entry (new, old) of the plan read-fonts' `glyph_name(new)` on the subset is the
 original's `glyph_name(old)` when that is defined; when the original has no name for `old` — `old` beyond the
 table's numGlyphs, an index ≥ 258 without a readable string (beyond the string list, in or after a truncated
 string, a non-ASCII string) — the subset says `.notdef` (index 0).  Duplicate names (two string indices holding
 the same name, several glyphs sharing one index) all resolve to that name; names are at most 255 bytes
 (Pascal strings), the length byte is never truncated.  Ids of the subset that no kept glyph owns (retain-gids
-holes) are `.notdef`. -/
+holes) are `.notdef`.  The `u16` name counter (`i`, wrapping since fix ffa8a1c) never wraps before its last use:
+every emitted string needs its own glyphNameIndex value 258..=65535 in the source (`pool_size_bound`). -/
 theorem post_v2_glyph_names_preserved (inp : PostIn) (out : Bytes) (hr : PostReq inp)
-    (h : subsetPost inp = .ok out) (hcap : (v2tail inp).strs.length ≤ 65278) :
+    (h : subsetPost inp = .ok out) :
     (∀ new old, (new, old) ∈ inp.n2o →
       glyphName out new = some ((glyphName inp.t old).getD notdefName)) ∧
     (∀ new, new < inp.nout → (∀ old, (new, old) ∉ inp.n2o) → glyphName out new = some notdefName) := by
+  have hcap : (v2tail inp).strs.length ≤ 65278 := pool_size_bound inp hr.bytes
   obtain ⟨hrd, hout⟩ := subsetPost_v2_ok inp out hr h
   obtain ⟨ro, vo, ng, rarr, rstr⟩ := out_reader inp out hr h
   have hascii : ∀ s ∈ (v2tail inp).strs, isAscii s = true ∧ s.length < 256 := by
@@ -137,10 +138,14 @@ theorem post_v2_glyph_names_preserved (inp : PostIn) (out : Bytes) (hr : PostReq
 
 /-- corollary in the form of the property: a defined name is kept -/
 theorem post_v2_defined_names_kept (inp : PostIn) (out : Bytes) (hr : PostReq inp)
-    (h : subsetPost inp = .ok out) (hcap : (v2tail inp).strs.length ≤ 65278)
+    (h : subsetPost inp = .ok out)
     (new old : Nat) (hno : (new, old) ∈ inp.n2o) (name : Bytes) (hname : glyphName inp.t old = some name) :
     glyphName out new = some name := by
-  rw [(post_v2_glyph_names_preserved inp out hr h hcap).1 new old hno, hname]; rfl
+  rw [(post_v2_glyph_names_preserved inp out hr h).1 new old hno, hname]; rfl
+
+/-- the pool never exceeds what the u16 index space of the source can denote -/
+theorem post_v2_name_counter_never_wraps (inp : PostIn) (hb : ∀ b ∈ inp.t, b < 256) :
+    (v2tail inp).strs.length ≤ 65536 - 258 := pool_size_bound inp hb
 
 /-- **post_v2_num_glyphs.**  The rebuilt table is readable, says version 2.0, its numGlyphs field is
 `num_output_glyphs` and it has exactly that many index entries followed by the string pool. -/
@@ -248,6 +253,61 @@ theorem post_non_glyph_names_is_v3_header (inp : PostIn) (out : Bytes)
       · simp [u32At, SubsetGvar.u32At]
   · simp [hrd] at h
 
+
+/-! ## the plan hypotheses are what `Plan::new` produces -/
+
+/-- **plan_hypotheses_hold.**  For every plan `Plan::new` builds (C17 `glyph_map_monotone_bijection`), with and
+without retain-gids: the new→old list is strictly monotone in both components (`PlanMono`, hence `PlanOk`),
+every new id is below `num_output_glyphs`, `plan.glyphset.last()` bounds every kept old id and is `None` only
+when nothing is kept — the hypotheses of the theorems in this file. -/
+theorem plan_hypotheses_hold (p : PlanIn) (pl : Plan) (h : makePlan p = some pl) (hn : p.num ≤ 65536) :
+    PlanMono pl.n2o ∧ (∀ no ∈ pl.n2o, no.1 < pl.nout) ∧
+    (∀ m, pl.glyphset.getLast? = some m → ∀ no ∈ pl.n2o, no.2 ≤ m) ∧
+    (pl.glyphset.getLast? = none → pl.n2o = []) := by
+  obtain ⟨hsorted, hren, hret⟩ := C17.glyph_map_monotone_bijection p pl h hn
+  have holds : pl.n2o.map (·.2) = pl.glyphset := by
+    cases hf : hasFlag p.flags F_RETAIN_GIDS with
+    | false => exact (hren hf).2.1
+    | true => rw [(hret hf).1]; simp [List.map_map, Function.comp_def]
+  have hmono : PlanMono pl.n2o := by
+    unfold PlanMono
+    cases hf : hasFlag p.flags F_RETAIN_GIDS with
+    | false =>
+      obtain ⟨h1, h2, _⟩ := hren hf
+      have a : pl.n2o.Pairwise (fun a b => a.1 < b.1) := by
+        rw [← List.pairwise_map (f := fun x : Nat × Nat => x.1) (R := (· < ·)), h1]; exact List.pairwise_lt_range
+      have b : pl.n2o.Pairwise (fun a b => a.2 < b.2) := by
+        rw [← List.pairwise_map (f := fun x : Nat × Nat => x.2) (R := (· < ·)), h2]; exact hsorted
+      exact a.and b
+    | true =>
+      rw [(hret hf).1, List.pairwise_map]
+      exact hsorted.imp (fun h => ⟨h, h⟩)
+  have hbound : ∀ no ∈ pl.n2o, no.1 < pl.nout := by
+    intro no hno
+    cases hf : hasFlag p.flags F_RETAIN_GIDS with
+    | false =>
+      obtain ⟨h1, _, h3⟩ := hren hf
+      have : no.1 ∈ pl.n2o.map (·.1) := List.mem_map_of_mem hno
+      rw [h1] at this
+      rw [h3]; simpa using this
+    | true =>
+      obtain ⟨h1, h2⟩ := hret hf
+      rw [h1] at hno
+      simp only [List.mem_map] at hno
+      obtain ⟨g, hg, rfl⟩ := hno
+      exact h2 g hg
+  refine ⟨hmono, hbound, ?_, ?_⟩
+  · intro m hm no hno
+    have : no.2 ∈ pl.glyphset := by rw [← holds]; exact List.mem_map_of_mem hno
+    obtain ⟨m', hm', hle⟩ := pairwise_lt_le_getLast hsorted this
+    rw [hm] at hm'; cases hm'; exact hle
+  · intro hnone
+    have : pl.glyphset = [] := by
+      cases hg : pl.glyphset with
+      | nil => rfl
+      | cons a tl => rw [hg] at hnone; simp [List.getLast?_cons] at hnone
+    rw [this] at holds
+    exact List.map_eq_nil_iff.mp holds
 
 /-! ## maxp -/
 
